@@ -35,7 +35,8 @@ from pendulum.tz.timezone import FixedTimezone, Timezone  # noqa: E402
 
 _ltz = sys.modules["pendulum.tz.local_timezone"]
 
-assert os.path.realpath(pendulum.__file__).startswith("/repo/src/"), pendulum.__file__
+_REPO_ROOT = os.path.realpath(os.environ.get("VERIF_REPO", "/repo"))
+assert os.path.realpath(pendulum.__file__).startswith(_REPO_ROOT + "/src/"), (pendulum.__file__, _REPO_ROOT)
 
 LOCALES = sorted(
     d for d in os.listdir(os.path.dirname(_locmod.__file__))
